@@ -111,12 +111,17 @@ def cut_into_rectangles(cells, rng):
 
 
 def tiling(rng):
-    mode = rng.choice(['polyomino', 'polyomino', 'ring', 'components'])
+    mode = rng.choice(['polyomino', 'polyomino', 'ring', 'components', 'components'])
     if mode == 'components':
         # two or three separate outlines; one that is NOT the largest encloses a void
-        big = G.rect_cells(0, 0, rng.randint(5, 7), rng.randint(5, 7))
-        n = rng.randint(3, 4); ox = 10
-        ring = {(i + ox, j) for i, j in (G.rect_cells(0, 0, n, n) - G.rect_cells(1, 1, n - 1, n - 1))}
+        bw, bh = rng.randint(5, 7), rng.randint(5, 7)
+        big = G.rect_cells(0, 0, bw, bh)
+        if rng.random() < 0.6:
+            # the large outline has a void of its own (smaller or larger than the other outline's void)
+            vx, vy = rng.randint(1, bw - 3), rng.randint(1, bh - 3)
+            big = big - G.rect_cells(vx, vy, vx + rng.randint(1, bw - 1 - vx - 1 + 1), vy + rng.randint(1, 2))
+        n = rng.randint(3, 5); ox = 10
+        ring = {(i + ox, j) for i, j in (G.rect_cells(0, 0, n, n) - G.rect_cells(1, 1, rng.randint(2, n - 1), n - 1))}
         cells = big | ring
         if rng.random() < 0.5:
             cells |= {(i + 20, j) for i, j in G.rect_cells(0, 0, 2, rng.randint(1, 3))}
@@ -188,7 +193,7 @@ def fam_tiling(ctx, rng):
             ctx.violation('outline.%s:%s:area' % (which, mode), 'outline loops enclose area %s, the tiles cover %d' % (float(tot), len(cells)), desc)
 
 
-FAMILIES = [(fam_soup, 120), (fam_tiling, 60)]
+FAMILIES = [(fam_soup, 120), (fam_tiling, 90)]
 
 
 def explore(ctx):
